@@ -84,6 +84,26 @@ def rule_of_three(ctx, chk):
             chk.violation("R16.4", q, which + "-trigger", "%s   [%s]" % (show(cond, 140), bad), "true exactly when the observed rate is %s" % ("0" if which == "lower" else "1"), ctx.where(q))
     # R16.4 (IEEE): the same triggers evaluated in double arithmetic, with the rate computed as the double quotient k/n
     ieee_triggers(ctx, chk, q, Pv, CI, AL, N)
+    # ... which presupposes that the observed FNR / FPR ARE single double quotients count / total: a rate formed as the complement of its
+    # sibling (1 - TPR) is up to one ulp below k/n, and `p < 1/n` then fires for k = 1 (n = 5, 6, 10, 13, ...)
+    Mx = Sym("m", ("param", "array", "notnone"))
+    for rate in ("fnr", "fpr"):
+        fq = "score_analysis.metrics." + rate
+        ctx.ev.complement_keys = set()
+        try:
+            outs_ = ctx.explore(lambda: ctx.ev.call(ctx.fn(fq), [Mx], {}), chk)
+        except Exception as e:  # noqa: BLE001
+            chk.unknown("R16.4", "metrics.%s: %s" % (rate, str(e)[:100]))
+            continue
+        rets_ = returns(outs_)
+        if len(rets_) != 1 or not hasattr(rets_[0].value, "key"):
+            chk.unknown("R16.4", "metrics.%s: %d return paths" % (rate, len(rets_)))
+        elif rets_[0].value.key in ctx.ev.complement_keys:
+            chk.violation("R16.4", fq, "rate-by-complement:" + rate, "metrics.%s returns 1 - <sibling rate>: %s" % (rate, show(rets_[0].value, 120)),
+                          "the quotient count / total itself (the triggers `p < 1/n` and `p > (n-1)/n` compare it with another double quotient; a complement is up to one ulp off and "
+                          "lets a rate of exactly 1/n count as 0)", ctx.where(fq))
+        else:
+            chk.hold("R16.4", "rate-quotient:" + rate, "metrics.%s is not formed as a floating-point complement" % rate, nontrivial=False)
     # override order: upper applied last (n = 1: rate 1 must win)
     if len(layers) == 2 and set(kinds) == {"lower", "upper"}:
         chk.hold("R16.4", "both-corrections", "lower and upper corrections both present", nontrivial=False)
